@@ -160,7 +160,36 @@ func (v *Verifier) builtin(st *State, in *ssa.Call, b *ssa.Builtin, args []*Term
 	case "delete":
 		unsup("delete")
 	case "copy":
-		unsup("copy")
+		// copy(dst, src): the first min(len) elements of dst's array are overwritten
+		dT := cc.Args[0].Type()
+		if _, ok := dT.Underlying().(*types.Slice); !ok {
+			unsup("copy into %s", dT)
+		}
+		if isString(cc.Args[1].Type()) {
+			unsup("copy from string")
+		}
+		es := sortOf(elemType(dT))
+		as := ArraySort(SInt, es)
+		d, s := args[0], args[1]
+		n := Ite(Le(Sel(d, 2), Sel(s, 2)), Sel(d, 2), Sel(s, 2))
+		h := st.getHeap(as)
+		da := Select(h, Sel(d, 0))
+		sa := Select(h, Sel(s, 0))
+		if n.IsInt() && n.Int64() <= 32 {
+			for i := int64(0); i < n.Int64(); i++ {
+				da = Store(da, Add(Sel(d, 1), IntLit(i)), Select(sa, Add(Sel(s, 1), IntLit(i))))
+			}
+			st.setHeap(as, Store(h, Sel(d, 0), da))
+		} else {
+			na := Fresh("copied", as)
+			i := BVar("i$c", SInt)
+			inRange := And(Le(Sel(d, 1), i), Lt(i, Add(Sel(d, 1), n)))
+			st.assume(Forall([]*Term{i}, Implies(inRange, Eq(Select(na, i), Select(sa, Add(Sel(s, 1), Sub(i, Sel(d, 1))))))))
+			st.assume(Forall([]*Term{i}, Implies(Not(inRange), Eq(Select(na, i), Select(da, i)))))
+			st.setHeap(as, Store(h, Sel(d, 0), na))
+		}
+		st.env[in] = n
+		return true
 	case "min", "max":
 		if len(args) == 2 && args[0].Sort == SInt {
 			if b.Name() == "min" {
@@ -355,6 +384,10 @@ func (v *Verifier) applyContract(st *State, in *ssa.Call, c *Contract, fn *ssa.F
 	}
 	for _, e := range c.Ensures {
 		st.assume(env.evalBool(e.Expr))
+	}
+	for _, e := range c.GhostEnsures {
+		st.assume(env.evalBool(e.Expr))
+		v.assumeNote("history variable defined by contract of " + c.Key + ": " + e.Text)
 	}
 	// references returned are allocated
 	for i, r := range rs {
